@@ -446,4 +446,15 @@ theorem C02_prepare_generated (D : Desc) (s : St) :
     prepareParseCommand D s = Gen.prepare_parse_command D s ∧ prepareSearchCommand s = Gen.prepare_search_command D s :=
   ⟨prepareParseCommand_generated D s, prepareSearchCommand_generated D s⟩
 
+/-- the counters this property's theorems keep as unbounded natural numbers (`cmd_group_num`, `cmd_num`, `commands_num`, `index`, `length`, `partial_cntr`) are declared
+`size_t` in `cat.h` — 64 bits on the target, so they cannot wrap on any buffer, table or line that exists; the widths
+are read from the struct declarations on every run (translator item T21) -/
+theorem C02_counters_unbounded :
+    Gen.width_desc_cmd_group_num = 64 ∧
+    Gen.width_group_cmd_num = 64 ∧
+    Gen.width_obj_commands_num = 64 ∧
+    Gen.width_obj_index = 64 ∧
+    Gen.width_obj_length = 64 ∧
+    Gen.width_obj_partial_cntr = 64 := by decide
+
 end Cat
